@@ -146,6 +146,23 @@ pub fn run(ctx: &mut Ctx) {
             if let Ok(Some(info)) = a.find_file(&f.name) { ctx.out.oracle(info.file_size == f.data.len() as u64, "reported-size-differs", &fdesc); }
             else { ctx.out.oracle(false, "added-file-not-found", &fdesc); }
         }
+        // V3/V4: the extended tables, when the archive carries and the reader loads them, resolve every added name too
+        // (the hash-entry table finds it, the block-entry table confirms its name hash) - the classic tables are not
+        // the only way in
+        if cfg.ver >= 2 {
+            match (a.het_table(), a.bet_table()) {
+                (Some(het), Some(bet)) => {
+                    ctx.out.stat("c01.extended_tables.loaded");
+                    for f in &files {
+                        match het.find_file(&f.name) {
+                            None => ctx.out.oracle(false, "extended-table-lookup-misses-added-file", &format!("{desc} file={}", f.name)),
+                            Some(ix) => ctx.out.oracle(bet.verify_file_hash(ix, &f.name), "extended-table-name-hash-not-confirmed", &format!("{desc} file={} index={ix}", f.name)),
+                        }
+                    }
+                }
+                _ => ctx.out.stat("c01.extended_tables.not_loaded"),
+            }
+        }
         // never-added names are not found
         for nm in ["never\\added.txt", "Data\\File0.tx", "b.bin2", "(signature)"] {
             let r = a.find_file(nm);
@@ -176,5 +193,27 @@ pub fn run(ctx: &mut Ctx) {
             if let Ok(mut fh) = std::fs::OpenOptions::new().create(true).append(true).open(ctx.out.dir.join("mpqwrite-requests.txt")) { let _ = writeln!(fh, "{req}\t{}", exp.join(" ")); }
         }
         let _ = std::fs::remove_file(&path);
+    }
+    // many reads in one process: every archive stands alone, nothing the reader learnt or spent on earlier files
+    // (budgets, caches) may make a later, well-formed file unreadable - more than 1 GiB is read back in total
+    {
+        let path = dir.path().join("soak.mpq");
+        let mut data = vec![0u8; 8 << 20];
+        for (i, b) in data.iter_mut().enumerate() { if i % 4096 < 48 { *b = (i / 4096 % 251) as u8 + 1; } }
+        let built = ArchiveBuilder::new().version(VERS[1]).block_size(8).listfile_option(ListfileOption::Generate)
+            .add_file_data_with_options(data.clone(), "soak\\big.bin", flags::SPARSE, false, 0)
+            .add_file_data_with_options(data[..300_000].to_vec(), "soak\\small.bin", flags::ZLIB, false, 0).build(&path);
+        if built.is_ok() {
+            let rounds = 136;
+            let mut bad = None;
+            for r in 0..rounds {
+                match Archive::open(&path).and_then(|mut a| { let x = a.read_file("soak\\big.bin")?; let y = a.read_file("SOAK/small.bin")?; Ok((x, y)) }) {
+                    Ok((x, y)) => if x != data || y != data[..300_000] { bad = Some(format!("round {r}: content differs")); break; },
+                    Err(e) => { bad = Some(format!("round {r} ({} MiB read back so far): {e}", r * 8)); break; }
+                }
+            }
+            ctx.out.oracle(bad.is_none(), "well-formed-archive-unreadable-after-many-reads", &format!("8 MiB sparse + 300 KB zlib file read {rounds} times in one process: {}", bad.unwrap_or_default()));
+            ctx.out.stat("c01.soak");
+        } else { ctx.out.stat("c01.soak_build_failed"); }
     }
 }
